@@ -95,6 +95,10 @@ pub struct Stats {
     pub max_slots_seen: usize,
     pub hangs: u64,
     pub prefix_failed: bool,
+    /// after-clear mode: bundles whose arena after "history; clear(); path" is not == the arena after "path" on a
+    /// new arena although every observable result is the same (ids carry other stamps, say). Recorded, not a verdict.
+    pub repr_differs_after_clear: u64,
+    pub final_arena: Option<indextree::Arena<u32>>,
 }
 
 impl Stats {
@@ -119,6 +123,7 @@ impl Stats {
         self.pull_checks += o.pull_checks;
         self.lookup_checks += o.lookup_checks;
         self.hangs += o.hangs;
+        self.repr_differs_after_clear += o.repr_differs_after_clear;
         for (k, v) in o.checks {
             *self.checks.entry(k).or_insert(0) += v;
         }
@@ -854,6 +859,11 @@ fn run_bundle<P: Payload + Clone>(ctx: &Ctx, b: &Bundle, prefix: &Option<Vec<Cal
         }
     }
     st.digest = st.digest.wrapping_add(digest);
+    if ctx.opts.after_clear {
+        if let Some(su) = (&sim as &dyn std::any::Any).downcast_ref::<Sim<u32>>() {
+            st.final_arena = Some(su.arena.clone());
+        }
+    }
 }
 
 pub fn signature(f: &Finding) -> String {
@@ -885,6 +895,11 @@ fn process<P: Payload + Clone>(ctx: &Ctx, line: &str, prev_path: &Option<Vec<Cal
             // no verdict: the comparison "after clear() like new" needs a reproducible prefix and path
             st.abandoned_policy += 1;
             return Some(b.path);
+        }
+        if let (Some(a), Some(c)) = (&fresh.final_arena, &cleared.final_arena) {
+            if a != c {
+                st.repr_differs_after_clear += 1;
+            }
         }
         let differs = cleared.abandoned_policy != fresh.abandoned_policy;
         if differs {
@@ -1170,6 +1185,7 @@ pub fn run(input: &str, out: &str, states_out: &str, detable_path: &str, opts: O
         "samples": tot.samples,
         "max_slots_seen": tot.max_slots_seen,
         "hangs": tot.hangs,
+        "repr_differs_after_clear": tot.repr_differs_after_clear,
         "wall_s": t0.elapsed().as_secs_f64(),
         "debug_assertions": cfg!(debug_assertions),
     });
